@@ -57,6 +57,7 @@ class Ctx:
         self.fresh_timeout_ms = 30000
         self.inc_timeout_ms = 2000
         self._nq_pur = 0
+        self._pur_cache = {}
 
     # -- assumptions
     def assume(self, cond):
@@ -438,9 +439,14 @@ class SymReal(numbers.Real):
             _CTX.divisor(o.t)
             if _CTX.purify_div:
                 # purified quotient: fresh q with q*b == a keeps nested divisions polynomial
+                key = (self.t.hash(), o.t.hash())
+                hit = _CTX._pur_cache.get(key)
+                if hit is not None and hit[0].eq(self.t) and hit[1].eq(o.t):
+                    return self._mk(o, hit[2], True)
                 _CTX._nq_pur += 1
                 q = z3.Real(f"quot{_CTX._nq_pur}")
                 _CTX.assume(q * o.t == self.t)
+                _CTX._pur_cache[key] = (self.t, o.t, q)
                 return self._mk(o, q, True)
         return self._mk(o, self.t / o.t, True)
 
